@@ -32,6 +32,11 @@ func genC02(t *rapid.T) CaseC02 {
 	}
 	c := CaseC02{}
 	c.Spec = gkit.GenSpec(t, mode, cfg)
+	if rapid.IntRange(0, 9).Draw(t, "joinMix") == 0 {
+		// directed: one join reached by plain edges and through branches of several producers of one step
+		c.Spec = gkit.GenJoinMix(t, cfg)
+		c.Spec.Mode = "dag"
+	}
 	c.Input = gkit.GenInput(t, c.Spec.In)
 	c.Paradigm = "invoke"
 	if rapid.IntRange(0, 4).Draw(t, "stream") == 0 {
